@@ -55,7 +55,8 @@ deriving DecidableEq, Repr
 
 /-- the history after the action part of an entry (before the command runs) -/
 def Mon.mid (m : Mon) (k : Kind) (id : Nat) (a : Act) (res : Res) : Mon :=
-  match a, res with
+  -- a step that delivers a response and then runs the command shows `panic` instead of `ok` when the task panics
+  match a, (if res == .panic then .ok else res) with
   | .resolveReq v, .ok =>
     let matters := !m.outcome && !m.clearSent
     { m with answeredAny := true, answered := v == goodResp k id,
@@ -181,35 +182,30 @@ def entryOf (host : Host) (launched addressed : Bool) (c : CAct) : Act × Bool :
   | .poll => if addressed then (.tick, true) else (.tick, host == .core && launched)
   | .act a => if addressed then (a, host == .core && launched) else (.tick, host == .core && launched)
 
-def effId : Eff → Nat
-  | .notify _ id => id
-  | .clear id => id
-
-def project (host : Host) (j id : Nat) : Bool → List ((CAct × Nat) × Rec) → List Entry
+/-- entries of timer `j`: per step, what was done to it and what it showed (`outs[j]`) -/
+def project (host : Host) (j : Nat) : Bool → List ((CAct × Nat) × List Out) → List Entry
   | _, [] => []
-  | launched, ((c, i), r) :: rest =>
+  | launched, ((c, i), outs) :: rest =>
     let addressed := i == j
     let ar := entryOf host launched addressed c
-    { act := ar.1, ran := ar.2, res := if addressed then r.res else .unit,
-      effects := r.effects.filter (effId · == id),
-      events := r.events.filterMap fun te => if te.1 == j then some te.2 else none }
-    :: project host j id (launched || (addressed && c == .poll)) rest
+    let o := outs.getD j {}
+    { act := ar.1, ran := ar.2, res := o.res, effects := o.effects, events := o.events }
+    :: project host j (launched || (addressed && c == .poll)) rest
 
 def increasing : List Nat → Bool
   | a :: b :: rest => a < b && increasing (b :: rest)
   | _ => true
 
-/-- The oracle for the command API: `none` = accepted, `some key` = rejected. `timers` = (kind, id) in creation order. -/
-def verdict (host : Host) (timers : List (Kind × Nat)) (steps : List (CAct × Nat)) (idsOk : Bool) (recs : List Rec) :
-    Option String :=
+/-- The oracle for the command API: `none` = accepted, `some key` = rejected. `timers` = (kind, id) in creation order;
+    `outs` = per step, per timer, what that timer showed. -/
+def verdict (host : Host) (timers : List (Kind × Nat)) (steps : List (CAct × Nat)) (idsOk : Bool)
+    (outs : List (List Out)) : Option String :=
   if !idsOk then some "id-not-unique"
-  else if recs.length != steps.length then some "malformed-observation"
-  else if !(recs.all fun r => r.effects.all (fun x => timers.any (·.2 == effId x)) &&
-                              r.events.all (fun te => te.1 < timers.length)) then some "foreign-id"
+  else if outs.length != steps.length || !(outs.all (·.length == timers.length)) then some "malformed-observation"
   else (List.range timers.length).findSome? fun j =>
     match timers[j]? with
     | none => none
-    | some (k, id) => verdict1 k id {} (project host j id false (steps.zip recs))
+    | some (k, id) => verdict1 k id {} (project host j false (steps.zip outs))
 
 /-! ### legacy capability API -/
 
@@ -241,7 +237,8 @@ def lcheck (k : Kind) (id : Option Nat) (m : LMon) (e : LEntry) : Option String 
     if !(e.effects.all (fun x => x == .notify k id || x == .clear id)) then some "foreign-id"
     else if e.events.length > 1 || (m.outcome && !e.events.isEmpty) then some "second-outcome"
     else if e.events.any (fun x => x == .got (.cleared id)) && !clearedNow then some "cleared-without-clear"
-    else if e.events.any (fun x => x != .got (.cleared id)) && !(e.events.all fun x => some x == answeredNow.map Ev.got) then
+    else if e.events.any (fun x => x != .got (.cleared id)) &&
+        (answeredNow.isNone || (answeredNow == some (respOf k id .good) && e.events != [.got (respOf k id .good)])) then
       some "completed-unanswered"
     else match e.act, e.res with
       | .start, .unit =>
@@ -283,20 +280,22 @@ def lverdict1 (k : Kind) (id : Option Nat) : LMon → List LEntry → Option Str
     | some key => some key
     | none => lverdict1 k id (m.after k id e) rest
 
-/-- entries of legacy timer `j`: the steps addressed to it (the others must not show anything of it) -/
-def lproject (j : Nat) (steps : List ((LAct × Nat) × Rec)) : List LEntry :=
+/-- entries of legacy timer `j`: the steps addressed to it -/
+def lproject (j : Nat) (steps : List ((LAct × Nat) × Out)) : List LEntry :=
   (steps.filter fun s => s.1.2 == j).map fun s =>
-    { act := s.1.1, res := s.2.res, effects := s.2.effects, events := s.2.events.map (·.2) }
+    { act := s.1.1, res := s.2.res, effects := s.2.effects, events := s.2.events }
 
-/-- The oracle for the legacy API. `ids[j]` = id of timer `j` if it was ever started. -/
-def lverdict (kinds : List Kind) (ids : List (Option Nat)) (steps : List (LAct × Nat)) (idsOk : Bool) (recs : List Rec) :
+/-- The oracle for the legacy API. `ids[j]` = id of timer `j` if it was ever started; `outs` = per step, what the
+    addressed timer showed. -/
+def lverdict (kinds : List Kind) (ids : List (Option Nat)) (steps : List (LAct × Nat)) (idsOk : Bool) (outs : List Out) :
     Option String :=
   if !idsOk then some "id-not-unique"
-  else if recs.length != steps.length then some "malformed-observation"
-  else if !((steps.zip recs).all fun s => s.2.events.all (·.1 == s.1.2)) then some "foreign-id"
+  else if outs.length != steps.length then some "malformed-observation"
+  else if !((steps.zip outs).all fun s => s.1.2 < kinds.length || (s.2.effects.isEmpty && s.2.events.isEmpty)) then
+    some "foreign-id"
   else (List.range kinds.length).findSome? fun j =>
     match kinds[j]?, ids[j]? with
-    | some k, some id => lverdict1 k id {} (lproject j (steps.zip recs))
+    | some k, some id => lverdict1 k id {} (lproject j (steps.zip outs))
     | _, _ => none
 
 end S.Timer
